@@ -762,12 +762,130 @@ func c25PlanString(p *c25Plan) string {
 	return "[" + strings.Join(out, " ") + "]"
 }
 
+// c25Fanout: a stream is stopped (its handler deregistered) while the agent is in the middle
+// of fanning an event out to its handlers - the handler that is being called deregisters, as
+// a client does that stops its stream or disconnects at that moment. Every other registered
+// handler must still get every event exactly once.
+type c25Rec struct {
+	id   int
+	mu   *sync.Mutex
+	got  map[int][]string // handler id -> event names received
+	gate func(id int, name string)
+}
+
+func (h *c25Rec) HandleEvent(e serf.Event) {
+	ue, ok := e.(serf.UserEvent)
+	if !ok {
+		return
+	}
+	h.mu.Lock()
+	h.got[h.id] = append(h.got[h.id], ue.Name)
+	h.mu.Unlock()
+	h.gate(h.id, ue.Name)
+}
+
+func c25Fanout(t *testing.T, rng *rand.Rand) (viol string, rounds int, errs string) {
+	synctest.Test(t, func(t *testing.T) {
+		env, err := ipcStart(ipcOpts{Seed: rng.Int63(), Name: "agent-fanout", NoIPC: true})
+		if err != nil {
+			errs = err.Error()
+			return
+		}
+		defer func() {
+			env.Close()
+			time.Sleep(time.Minute)
+		}()
+		n := 3 + rng.Intn(5)
+		var mu sync.Mutex
+		got := map[int][]string{}
+		hs := make([]*c25Rec, n)
+		registered := map[int]bool{}
+		var first map[string]int // event -> id of the first handler called for it
+		first = map[string]int{}
+		release := map[string]chan struct{}{}
+		gate := func(id int, name string) {
+			mu.Lock()
+			_, seen := first[name]
+			if !seen {
+				first[name] = id
+			}
+			ch := release[name]
+			mu.Unlock()
+			if !seen && ch != nil {
+				<-ch // the first handler called for this event stays inside HandleEvent
+			}
+		}
+		for i := range hs {
+			hs[i] = &c25Rec{id: i, mu: &mu, got: got, gate: gate}
+			env.Agent.RegisterEventHandler(hs[i])
+			registered[i] = true
+		}
+		for round := 0; round < 6 && viol == ""; round++ {
+			name := fmt.Sprintf("fanout-%d", round)
+			mu.Lock()
+			release[name] = make(chan struct{})
+			before := map[int]bool{}
+			for i := range registered {
+				before[i] = true
+			}
+			mu.Unlock()
+			if err := env.Agent.UserEvent(name, []byte("x"), false); err != nil {
+				errs = err.Error()
+				return
+			}
+			synctest.Wait() // the first handler is blocked inside HandleEvent
+			mu.Lock()
+			f, ok := first[name]
+			mu.Unlock()
+			if !ok {
+				errs = "no handler was called for " + name
+				return
+			}
+			// that handler's stream is stopped right now
+			env.Agent.DeregisterEventHandler(hs[f])
+			delete(registered, f)
+			close(release[name])
+			synctest.Wait()
+			rounds++
+			mu.Lock()
+			for i := range before {
+				c := 0
+				for _, g := range got[i] {
+					if g == name {
+						c++
+					}
+				}
+				if c != 1 {
+					viol = fmt.Sprintf("%d handlers registered; handler %d deregistered while it was handling event %s (the first of the fan-out): handler %d received the event %d times, every registered handler must receive it once (received per handler: %v)", len(before), f, name, i, c, got)
+				}
+			}
+			mu.Unlock()
+			if len(registered) < 2 {
+				break
+			}
+		}
+	})
+	return
+}
+
 func TestC25(t *testing.T) {
 	r := evid.Start(t, "C25", "exploration")
 	n := r.N(1000, 15000)
 	if os.Getenv("VERIF_PHASE") == "race" {
 		n = r.N(16, 600)
 	}
+	r.Cases("fanout", r.N(60, 1500), 0, func(ci int, rng *rand.Rand) {
+		viol, rounds, errs := c25Fanout(t, rng)
+		r.Eval(1)
+		r.Count("fanout_rounds_with_a_handler_deregistered_mid_event", rounds)
+		if errs != "" {
+			r.Count("fanout_setup_errors", 1)
+			return
+		}
+		if viol != "" {
+			r.Violation("fanout/handler-skipped-or-called-twice", ci, viol, viol)
+		}
+	})
 	r.Cases("sessions", n, 0, func(ci int, rng *rand.Rand) {
 		res := c25Case(t, rng)
 		r.Eval(1)
